@@ -71,6 +71,27 @@ impl Driven for D {
          _ => panic!("verif harness: unknown relation {}", rel),
       }
    }
+   fn clear(&mut self, rel: &str) {
+      match rel {
+         "sched" => { self.0.sched = Default::default(); },
+         "never" => { self.0.never = Default::default(); },
+         "step" => { self.0.step = Default::default(); },
+         "dom" => { self.0.dom = Default::default(); },
+         "iff" => { self.0.iff = Default::default(); },
+         "ibf" => { self.0.ibf = Default::default(); },
+         "ifb" => { self.0.ifb = Default::default(); },
+         "ibb" => { self.0.ibb = Default::default(); },
+         "off" => { self.0.off = Default::default(); },
+         "obf" => { self.0.obf = Default::default(); },
+         "ofb" => { self.0.ofb = Default::default(); },
+         "obb" => { self.0.obb = Default::default(); },
+         "j" => { self.0.j = Default::default(); },
+         "nr" => { self.0.nr = Default::default(); },
+         "cnt" => { self.0.cnt = Default::default(); },
+         "outdeg" => { self.0.outdeg = Default::default(); },
+         _ => panic!("verif harness: unknown relation {}", rel),
+      }
+   }
    fn run(&mut self) { self.0.run(); }
    fn dump(&self) -> Value {
       let mut m: Vec<(String, Value)> = vec![];
